@@ -175,6 +175,7 @@ pub fn scale_cases(prop: &str, kinds: &[Kind], methods: &[Method], tier: &str, a
                 if (m == Method::Lm) != (kind != Kind::Std) {
                     continue;
                 }
+                util::tick_progress();
                 let exp = oracle::with_values(&expected(m, kind, &occ, hay.len()), &rvals);
                 let got = std::panic::catch_unwind(std::panic::AssertUnwindSafe(|| b.auto.run(m, hay)));
                 acc.traces += 1;
